@@ -9,7 +9,18 @@ import (
 // style: sizes and mixes are drawn per run).
 
 func generate(prop string, seed uint64, run int) *Case {
+	return generateTier(prop, seed, run, "quick")
+}
+
+// generateTier: the thorough tier draws 30% of its cases from a "big" profile
+// (more templates, more tasks, longer histories).  The decision does not
+// consume from the case's PRNG, so quick-tier cases are unaffected.
+func generateTier(prop string, seed uint64, run int, tier string) *Case {
 	g := newGen(seed, prop, run)
+	g.big = tier == "thorough" && splitmix64(seed^0xb16)%10 < 3
+	if g.big {
+		g.c.Profile = "big "
+	}
 	switch prop {
 	case "C05":
 		g.genC05()
@@ -32,7 +43,7 @@ func (g *gen) opPtrs() []*Op { return g.c.allOps() }
 
 func (g *gen) genC05() {
 	c := g.c
-	g.genSet(1+g.r.Intn(3), 1+g.r.Intn(3), 1+g.r.Intn(2), false)
+	g.genSet(g.n(1, 3), g.n(1, 3), 1+g.r.Intn(2), false)
 	g.emitDefs(g.chance(0.3))
 	sets := []int{0}
 	if g.chance(0.3) {
@@ -49,7 +60,7 @@ func (g *gen) genC05() {
 	if g.chance(0.25) {
 		ntasks = 2 + g.r.Intn(2)
 	}
-	nops := 3 + g.r.Intn(7)
+	nops := g.n(3, 7)
 	c.Tasks = make([][]Op, ntasks)
 	for i := 0; i < nops; i++ {
 		t := g.r.Intn(ntasks)
@@ -67,7 +78,7 @@ func (g *gen) genC05() {
 		}
 		c.Tasks[t] = append(c.Tasks[t], op)
 	}
-	c.Profile = fmt.Sprintf("C05 tasks=%d", ntasks)
+	c.Profile += fmt.Sprintf("C05 tasks=%d", ntasks)
 	if g.chance(0.4) {
 		g.execFaults(g.opPtrs(), 0.35)
 		c.Profile += " faults"
@@ -81,10 +92,10 @@ func (g *gen) genC06() {
 	if g.chance(0.3) {
 		nbad = 1
 	}
-	g.genSet(2+g.r.Intn(3), 2+g.r.Intn(3), nbad, false)
+	g.genSet(g.n(2, 3), g.n(2, 3), nbad, false)
 	g.emitDefs(g.chance(0.25))
 	names := g.allNames()
-	nops := 3 + g.r.Intn(7)
+	nops := g.n(3, 7)
 	var ops []Op
 	for i := 0; i < nops; i++ {
 		if len(ops) > 0 && g.chance(0.25) {
@@ -97,7 +108,7 @@ func (g *gen) genC06() {
 		ops = append(ops, g.execOp(0, names))
 	}
 	c.Tasks = [][]Op{ops}
-	c.Profile = "C06"
+	c.Profile += "C06"
 	if g.chance(0.4) {
 		var ptrs []*Op
 		for i := range c.Tasks[0] {
@@ -125,7 +136,7 @@ func (g *gen) genC06() {
 
 func (g *gen) genC08() {
 	c := g.c
-	g.genSet(1+g.r.Intn(3), 1+g.r.Intn(3), g.r.Intn(3), true)
+	g.genSet(g.n(1, 3), g.n(1, 3), g.r.Intn(3), true)
 	useDisk := g.chance(0.4)
 	g.emitDefs(useDisk)
 	if useDisk && c.Disk == nil {
@@ -138,7 +149,7 @@ func (g *gen) genC08() {
 		ntasks = 2 + g.r.Intn(2)
 	}
 	c.Tasks = make([][]Op, ntasks)
-	nops := 3 + g.r.Intn(8)
+	nops := g.n(3, 8)
 	for i := 0; i < nops; i++ {
 		t := g.r.Intn(ntasks)
 		set := sets[g.r.Intn(len(sets))]
@@ -165,7 +176,7 @@ func (g *gen) genC08() {
 		}
 		c.Tasks[t] = append(c.Tasks[t], op)
 	}
-	c.Profile = fmt.Sprintf("C08 tasks=%d", ntasks)
+	c.Profile += fmt.Sprintf("C08 tasks=%d", ntasks)
 	if g.chance(0.5) {
 		g.execFaults(g.opPtrs(), 0.3)
 		g.fsFaults(g.opPtrs(), 0.4)
@@ -225,13 +236,16 @@ func (g *gen) genC09() {
 	if g.chance(0.33) {
 		nbad = 1
 	}
-	g.genSet(2+g.r.Intn(3), 3+g.r.Intn(3), nbad, false)
+	g.genSet(g.n(2, 3), g.n(3, 3), nbad, false)
 	g.emitDefs(false)
 	names := g.allNames()
 	ntasks := 2 + g.r.Intn(3)
+	if g.big {
+		ntasks += 1 + g.r.Intn(2)
+	}
 	c.Tasks = make([][]Op, ntasks)
 	for t := 0; t < ntasks; t++ {
-		n := 1 + g.r.Intn(4)
+		n := g.n(1, 4)
 		for i := 0; i < n; i++ {
 			var op Op
 			id := g.id()
@@ -257,7 +271,7 @@ func (g *gen) genC09() {
 			c.Tasks[t] = append(c.Tasks[t], op)
 		}
 	}
-	c.Profile = fmt.Sprintf("C09 tasks=%d", ntasks)
+	c.Profile += fmt.Sprintf("C09 tasks=%d", ntasks)
 	if g.chance(0.35) {
 		g.execFaults(g.opPtrs(), 0.3)
 		c.Profile += " faults"
